@@ -77,6 +77,9 @@ def build_groups(cases, rng, nodes, start_gid=0):
         if len(base) >= 3:
             calls.append({"tag": "rot", "kind": "same", "files": to_spec(base[1:] + base[:1], rs, ws)})
         calls.append({"tag": "moved", "kind": "same", "files": to_spec(moved(base), rs, ws)})
+        if len(base) >= 2:
+            # directory order opposite to name order (a sort by path instead of by name shows here)
+            calls.append({"tag": "crossed", "kind": "same", "files": to_spec([dict(f, dir=50 - f["dir"]) for f in base], rs, ws)})
         for m in sorted(c["mutants"], key=lambda m: json.dumps(m, sort_keys=True)):
             calls.append({"tag": m["kind"], "kind": m["kind"], "files": to_spec(m["files"], rs, ws)})
         gid += 1
@@ -105,6 +108,12 @@ def big_groups(tier, start_gid):
               "calls": [{"tag": "base", "kind": "same", "files": minfiles},
                         {"tag": "perm", "kind": "same", "files": moved(list(reversed(minfiles)))},
                         {"tag": "rowplus", "kind": "rowplus", "files": [dict(minfiles[0], rgs=[{"rows": 30001, "w": 100}] + minfiles[0]["rgs"][1:]), minfiles[1]]}]})
+    # same byte size, different row count (4 x 8-byte values vs 5 x 4-byte values): only num_rows tells them apart
+    g.append({"gid": start_gid + 3, "nodes": [1, 2, 3], "family": "equal-bytes",
+              "calls": [{"tag": "base", "kind": "same", "files": [{"name": 1, "dir": 1, "rgs": [{"rows": 4, "w": 8}]}]},
+                        {"tag": "rowplus", "kind": "rowplus", "files": [{"name": 1, "dir": 1, "rgs": [{"rows": 5, "w": 4}]}]},
+                        {"tag": "base10", "kind": "other", "files": [{"name": 1, "dir": 2, "rgs": [{"rows": 40, "w": 8}]}]},
+                        {"tag": "rowplus10", "kind": "other", "files": [{"name": 1, "dir": 2, "rgs": [{"rows": 50, "w": 4}]}]}]})
     if tier == "thorough":
         idf = [{"name": 1, "dir": 1, "rgs": [{"rows": 40000, "w": 800}] * 4 + [{"rows": 12345, "w": 800}]},
                {"name": 2, "dir": 1, "rgs": [{"rows": 40000, "w": 100}]}]
@@ -320,8 +329,8 @@ def run(ctx):
             # all shapes with <= 2 row groups would be cheap but dull; take a seeded sample across the space
             pick = rng.sample(cases, 60)
         else:
-            pick = rng.sample(cases, min(len(cases), 2500))
-        nodes = [1, 2, 3, 8, 64] if quick else [1, 2, 3, 4, 5, 7, 8, 16, 33, 64]
+            pick = rng.sample(cases, min(len(cases), 600))
+        nodes = [1, 2, 3, 8, 64] if quick else [1, 2, 3, 4, 5, 8, 16, 64]
         groups = build_groups(pick, rng, nodes)
         groups += big_groups(ctx.tier, 1000000)
         outs = run_real(ctx, groups, "real")
@@ -345,11 +354,14 @@ def run(ctx):
         raise vlib.ToolError(f"target regimes reached with real constants: {sorted(regimes)}; needed {sorted(need)}")
     if not dupg:
         raise vlib.ToolError("no same-name group was generated")
+    eq = [t for g, t in zip(groups, trecs) if g["family"] == "equal-bytes"]
+    if not eq or eq[0]["calls"][0]["files"][0]["rgs"][0]["bytes"] != eq[0]["calls"][1]["files"][0]["rgs"][0]["bytes"]:
+        raise vlib.ToolError("the equal-bytes pair (4 vs 5 rows) no longer has equal byte sizes: the num_rows-only sensitivity case is not exercised")
     ctx.set("groups", len(groups))
     ctx.set("exhaustive", True)
     ctx.set("rule", "TLC (Splits.tla) enumerates every inventory within the bounds and checks that the modelled algorithm meets the contract "
             "(tiling, totals, invariance under all listings/directories, digest determined by and determining the visible content); it also emits "
-            "inventories with all their single-attribute mutants. A seeded sample (quick) / 2500 (thorough) of them is materialised as real Parquet "
+            "inventories with all their single-attribute mutants. A seeded sample of 60 (quick) / 600 (thorough) of them is materialised as real Parquet "
             "files (row counts x scale, value widths; zero-row row groups included), listed in base/reversed/rotated order and under other directories, "
             "and every variant is enumerated by the real enumerate_parquet at each node count; SplitsTrace.tla judges each group with the real constants "
             "against footers read back independently. evaluations = real enumerate_parquet calls judged; distinct_nontrivial = distinct "
